@@ -38,8 +38,10 @@ def membership(tab, scheme, flavour="lib"):
 
     flavour 'lib': side chain = protein-residue atoms whose name is not in {C, CA, N, O, HA, H}
                    (the library's documented predicate `Atom.is_sidechain`);
-    flavour 'strict': additionally the terminal backbone atoms OXT/OT1/OT2/H1/H2/H3 of non-cap residues are not
-                   side chain (chemistry)."""
+    flavour 'strict': additionally atoms named OXT/OT1/OT2/H1/H2/H3 (terminal carboxylate O, ammonium H) are not
+                   side chain (chemistry).  For the caps ACE/NME/NH2, which have no side chain at all and whose
+                   methyl hydrogens may carry the names H1-3, the documentation is silent: the caller accepts
+                   either flavour for them."""
     out = []
     for r in tab["residues"]:
         ats = [tab["atoms"][i] for i in r["atoms"]]
@@ -51,7 +53,7 @@ def membership(tab, scheme, flavour="lib"):
             m = [a["i"] for a in ats if a["el"] != "H"]
         else:
             sc = [a for a in ats if r["prot"] and a["name"] not in BACKBONE_LIB]
-            if flavour == "strict" and r["name"] not in CAPS:
+            if flavour == "strict":
                 sc = [a for a in sc if a["name"] not in TERMINAL]
             if scheme == "sidechain-heavy" and r["name"] != "GLY":   # documented: glycine keeps its side-chain H
                 sc = [a for a in sc if a["el"] != "H"]
